@@ -238,24 +238,40 @@ func c03IndexCommand(c *Ctx, sx *symx.Ctx, F []string) {
 	loops := ssau.RangeLoops(fn)
 	tagList := map[string]ssa.Value{}
 	var inc *ssa.Function
+	incTok := 0 // index of the token parameter of the counting function
 	ssau.ForEachInstr(fn, false, func(in ssa.Instruction) {
 		call, ok := in.(*ssa.Call)
 		if !ok {
 			return
 		}
 		cal := call.Common().StaticCallee()
-		if cal == nil || cal.Parent() != fn || len(call.Common().Args) != 2 {
+		// the counting closure inc(tok, "tag"), or the same as a method of the
+		// counts table: counts.inc(tok, "tag")
+		nArgs := len(call.Common().Args)
+		isClosure := cal != nil && cal.Parent() == fn && nArgs == 2
+		isMethod := cal != nil && cal.Parent() == nil && cal.Blocks != nil && cal.Pkg == fn.Pkg && nArgs == 3 && cal.Signature.Recv() != nil
+		if !isClosure && !isMethod {
 			return
 		}
-		tag, ok := ssau.ConstString(call.Common().Args[1])
+		if isMethod {
+			// the receiver is a map of per-field counts
+			if mt, ok := call.Common().Args[0].Type().Underlying().(*types.Map); !ok || ssau.NamedOf(mt.Elem()) != dbPkg+".fieldTF" {
+				return
+			}
+		}
+		tag, ok := ssau.ConstString(call.Common().Args[nArgs-1])
 		if !ok {
+			if isMethod {
+				return
+			}
 			r.Bad("O-2", fk+"#tag-constant", c.P.Pos(call.Pos()), "the field tag passed to the counting closure is not a constant")
 			return
 		}
 		inc = cal
+		incTok = nArgs - 2
 		// token argument: element of the list ranged over
 		var list ssa.Value
-		if u, ok := call.Common().Args[0].(*ssa.UnOp); ok {
+		if u, ok := call.Common().Args[nArgs-2].(*ssa.UnOp); ok {
 			if ia, ok := u.X.(*ssa.IndexAddr); ok {
 				for _, l := range loops {
 					if l.Index == ia.Index && l.Over == ia.X {
@@ -465,7 +481,7 @@ func c03IndexCommand(c *Ctx, sx *symx.Ctx, F []string) {
 		// read-modify-write of termFreqs[tok]
 		rmw := false
 		ssau.ForEachInstr(inc, false, func(in ssa.Instruction) {
-			if mu, ok := in.(*ssa.MapUpdate); ok && mu.Key == ssa.Value(inc.Params[0]) {
+			if mu, ok := in.(*ssa.MapUpdate); ok && incTok < len(inc.Params) && mu.Key == ssa.Value(inc.Params[incTok]) {
 				rmw = true
 			}
 		})
@@ -881,6 +897,17 @@ func c03Build(c *Ctx, sx *symx.Ctx, F []string) {
 					n2, _ := lastSelector(bo.Y)
 					if n1 == fld && n2 == "N" {
 						avgOK = true
+					}
+					// or the number of entries of the list of document lengths
+					// itself (which has one entry per document: C10's invariant)
+					dv := bo.Y
+					if cv, ok := dv.(*ssa.Convert); ok {
+						dv = cv.X
+					}
+					if lc, ok := dv.(*ssa.Call); ok && n1 == fld && ssau.CallName(lc) == "builtin.len" {
+						if sl, ok := lc.Common().Args[0].Type().Underlying().(*types.Slice); ok && ssau.NamedOf(sl.Elem()) == dbPkg+".docLens" {
+							avgOK = true
+						}
 					}
 				}
 			}
